@@ -168,6 +168,9 @@ type localInfo struct {
 // baselineLocals: variables of every function under contract on the delivered tree (from /verif/baseline).
 var baselineLocals map[string][]localInfo
 
+// baselineLoops: per function under contract on the delivered tree, {loops of its own, loops incl. inlined helpers}.
+var baselineLoops map[string][2]int
+
 // localsOf lists the variables a function declares, in source order.
 func localsOf(fi *FuncInfo) []localInfo {
 	if fi == nil || fi.Decl == nil {
@@ -815,6 +818,16 @@ func (fv *FuncVerifier) renumberThroughHelpers() {
 	}
 	loops := map[ast.Stmt]int{}
 	n := 0
+	// On the delivered tree this function had no loop inside an inlined helper, and it still has as many loops of
+	// its own as then: loops that now appear inside (new) helpers are NEW loops and are numbered after the
+	// function's own ones, whose ordinals - and clauses - stay as they are. (Otherwise: encounter order, so that a
+	// loop MOVED into a helper keeps its ordinal.)
+	if bl, ok := baselineLoops[fi.Key]; ok && bl[0] == bl[1] && len(fv.loops) == bl[0] {
+		for k, v := range fv.loops {
+			loops[k] = v
+		}
+		n = len(fv.loops)
+	}
 	visiting := map[*FuncInfo]bool{fi: true}
 	var walk func(body *ast.BlockStmt, info *types.Info, depth int)
 	walk = func(body *ast.BlockStmt, info *types.Info, depth int) {
@@ -926,6 +939,14 @@ func VerifyFunc(w *World, prog *Program, fi *FuncInfo) *FuncResult {
 					}
 					return true
 				})
+			}
+		}
+		// `lit k framed`: the function's frame (pure / assigns / preserves) is claimed for this literal as well
+		if fi.Contr != nil {
+			for _, l := range ls {
+				if fi.Contr.Has("framed", l.ord) {
+					returned[l.lit] = true
+				}
 			}
 		}
 		fv.framedLits = returned
